@@ -133,8 +133,18 @@ Step == /\ mi < Len(Mems(T))
                        att |-> AttTab[T.ci][mi + 1]]
                \* a history that uses the block partition needs a member whose dimension carries the blocks
                r == IF T.d > m.dim THEN ZeroAcc ELSE Walk(ctx, 1, <<>>)
+               \* Function.stationary_point() documents "create a NEW stationary point": two calls that hand out one and
+               \* the same point force two minimisers / zeros of the member to coincide (the quadratic class documents
+               \* "the unique stationary point created in __init__" instead and is not judged here)
+               E == T.events
+               merged == IF /\ T.cls # "SmoothStronglyConvexQuadraticFunction"
+                            /\ Cardinality(Range(ctx.stat)) >= 2
+                            /\ \E k1 \in 1..Len(E) : \E k2 \in (k1 + 1)..Len(E) :
+                                  /\ E[k1].k = "stat" /\ E[k2].k = "stat" /\ E[k1].own = 1 /\ E[k2].own = 1
+                                  /\ E[k1].x = E[k2].x
+                         THEN {<<"two-stationary-points-are-one-point-where-the-member-has-several", m.tag, "">>} ELSE {}
            IN \E rr \in {r} :      \* (bound once: see The)
-              /\ bad' = bad \cup rr.bad \cup (IF mi = 0 THEN {<<"MACHINERY-sparse-evaluation", nm, "">> : nm \in XCheck(T)} ELSE {})
+              /\ bad' = bad \cup rr.bad \cup merged \cup (IF mi = 0 THEN {<<"MACHINERY-sparse-evaluation", nm, "">> : nm \in XCheck(T)} ELSE {})
                         \cup (IF CaseOK(T) THEN {} ELSE {<<"MACHINERY-case-index", T.cls, "">>})
               /\ nev' = nev + rr.n
               /\ nov' = <<nov[1] + rr.ov, nov[2] + rr.unk>>
